@@ -31,6 +31,8 @@ MkSetup(kind, nin, vout, amount, script, succ, stack, sigver, tce, weight, annex
      sigver |-> sigver, tce |-> tce, weight |-> weight, annex |-> annex, leafhash |-> leafhash]
 NoAnnex == <<FALSE, <<>>>>
 
+\* the initial stack of a witness script obeys the element size limit (PUSH_SIZE before any operation runs)
+Oversize(items) == \E i \in 1..Len(items) : Len(items[i]) > RealLimits.elem
 WitnessSetup(nin, n, amount, prog, witness, flags, wrapped) ==
     \* prog = <<isWitness, version, program>> of the (possibly P2SH-wrapped) witness program
     IF prog[2] = 0 THEN
@@ -38,11 +40,13 @@ WitnessSetup(nin, n, amount, prog, witness, flags, wrapped) ==
             (IF witness = <<>> THEN SoftRefusal("empty witness")
              ELSE IF Hash160(Top(witness, 1)) # prog[3] THEN NoSetup("key hash mismatch")
              \* a witness with other than two items is invalid (WITNESS_PROGRAM_MISMATCH); unrolled, the surplus / missing items show in the final stack
+             ELSE IF Oversize(witness) THEN SoftRefusal("witness item larger than the element limit")
              ELSE MkSetup(IF wrapped THEN "P2SH-P2WPKH" ELSE "P2WPKH", nin, n, amount, P2pkhScript(prog[3]), <<>>, witness, "WITNESS_V0", NoTce, 0, NoAnnex, <<>>))
          ELSE IF Len(prog[3]) = 32 THEN
             (IF witness = <<>> THEN SoftRefusal("empty witness")
              ELSE IF SHA256(Top(witness, 1)) # prog[3] THEN NoSetup("script hash mismatch")
              ELSE IF ~Admissible(Top(witness, 1), RealLimits.elem) THEN NoSetup("witness script not admissible")
+             ELSE IF Oversize(PopN(witness, 1)) THEN SoftRefusal("witness item larger than the element limit")
              ELSE MkSetup(IF wrapped THEN "P2SH-P2WSH" ELSE "P2WSH", nin, n, amount, Top(witness, 1), <<>>, PopN(witness, 1), "WITNESS_V0", NoTce, 0, NoAnnex, <<>>))
          ELSE SoftRefusal("witness program of wrong length"))
     ELSE IF prog[2] = 1 /\ Len(prog[3]) = 32 /\ ~wrapped THEN
@@ -57,6 +61,7 @@ WitnessSetup(nin, n, amount, prog, witness, flags, wrapped) ==
                       IN IF ~ControlSizeOK(control) THEN NoSetup("control block size")
                          ELSE IF control[1] - (control[1] % 2) # 192 THEN NoSetup("unknown leaf version")
                          ELSE IF ~Admissible(script, RealLimits.elem) THEN NoSetup("leaf script not admissible")
+                         ELSE IF Oversize(PopN(st, 2)) THEN SoftRefusal("witness item larger than the element limit")
                          ELSE LET leaf == TapLeafHash(192, script)
                               IN MkSetup("P2TR-scriptpath", nin, n, amount, script, <<>>, PopN(st, 2), "TAPSCRIPT",
                                          [active |-> TRUE, control |-> control, program |-> prog[3], i |-> 0, k |-> leaf],
